@@ -93,12 +93,12 @@ theorem hasAdjDup_of_asc : ∀ (last : Option Bytes) (xs : List EncEntry), Asc l
 /-! ### loops -/
 
 /-- the statement proved for `dec fuel`, as a property of an element decoder -/
-def Canon (d : Bytes → Except Err (Val × Bytes)) : Prop :=
-  ∀ bs v rest, d bs = .ok (v, rest) → ∃ e, enc v = .ok e ∧ bs = e ++ rest
+def Canon (dp : Nat) (d : Bytes → Except Err (Val × Bytes)) : Prop :=
+  ∀ bs v rest, d bs = .ok (v, rest) → ∃ e, enc dp v = .ok e ∧ bs = e ++ rest
 
-theorem itemsWith_canon {d} (hd : Canon d) :
+theorem itemsWith_canon {dp : Nat} {d} (hd : Canon dp d) :
     ∀ n bs xs rest, itemsWith d n bs = .ok (xs, rest) →
-      ∃ e, encList xs = .ok e ∧ bs = e ++ rest ∧ xs.length = n := by
+      ∃ e, encList dp xs = .ok e ∧ bs = e ++ rest ∧ xs.length = n := by
   intro n
   induction n with
   | zero =>
@@ -123,9 +123,9 @@ theorem itemsWith_canon {d} (hd : Canon d) :
         · simp [encList, he1, he2]
         · rw [hb1, hb2]; simp
 
-theorem entriesWith_canon {d} (hd : Canon d) :
+theorem entriesWith_canon {dp : Nat} {d} (hd : Canon dp d) :
     ∀ n last bs es rest, entriesWith d n last bs = .ok (es, rest) →
-      ∃ ents body, encEntries es = .ok ents ∧ Asc last ents ∧ encBody ents = .ok body ∧
+      ∃ ents body, encEntries dp es = .ok ents ∧ Asc last ents ∧ encBody ents = .ok body ∧
         bs = body ++ rest ∧ ents.length = n := by
   intro n
   induction n with
@@ -157,7 +157,7 @@ theorem entriesWith_canon {d} (hd : Canon d) :
             injection h with h; injection h with h1 h2
             subst h1; subst h2
             obtain ⟨ents, body, hents, hasc, hbody, hb, hl⟩ := ih _ _ _ _ hes
-            refine ⟨(ek, enc v) :: ents, ek ++ ev ++ body, ?_, ?_, ?_, ?_, by simp [hl]⟩
+            refine ⟨(ek, enc dp v) :: ents, ek ++ ev ++ body, ?_, ?_, ?_, ?_, by simp [hl]⟩
             · simp [encEntries, hek, hents]
             · refine ⟨?_, hasc⟩
               cases last with
@@ -179,24 +179,24 @@ theorem entriesWith_canon {d} (hd : Canon d) :
 
 /-! ### the decoder -/
 
-theorem enc_int_nat (n : Nat) : enc (.int (Int.ofNat n)) = .ok (head 0 n) := by
+theorem enc_int_nat (d n : Nat) : enc d (.int (Int.ofNat n)) = .ok (head 0 n) := by
   have h1 : ¬ ((n : Int) < -(2 ^ 63 : Int)) := by omega
   have h2 : (0 : Int) ≤ (n : Int) := by omega
   simp only [enc, encInt, Int.ofNat_eq_natCast, if_neg h1, if_pos h2, Int.toNat_natCast]
 
-theorem enc_int_neg (n : Nat) (hn : n < 2 ^ 63) : enc (.int (-(1 + Int.ofNat n))) = .ok (head 1 n) := by
+theorem enc_int_neg (d n : Nat) (hn : n < 2 ^ 63) : enc d (.int (-(1 + Int.ofNat n))) = .ok (head 1 n) := by
   have h0 : (n : Int) < 2 ^ 63 := by exact_mod_cast hn
   have h1 : ¬ (-(1 + (n : Int)) < -(2 ^ 63 : Int)) := by omega
   have h2 : ¬ ((0 : Int) ≤ -(1 + (n : Int))) := by omega
   have h3 : (-1 - -(1 + (n : Int))).toNat = n := by omega
   simp only [enc, encInt, Int.ofNat_eq_natCast, if_neg h1, if_neg h2, h3]
 
-theorem dec_canon : ∀ fuel, Canon (dec fuel) := by
+theorem dec_canon : ∀ fuel dp, Canon dp (dec fuel dp) := by
   intro fuel
   induction fuel with
-  | zero => intro bs v rest h; simp [dec] at h
+  | zero => intro dp bs v rest h; simp [dec] at h
   | succ fuel ih =>
-    intro bs v rest h
+    intro dp bs v rest h
     cases bs with
     | nil => simp [dec] at h
     | cons b0 tl =>
@@ -216,7 +216,7 @@ theorem dec_canon : ∀ fuel, Canon (dec fuel) := by
           subst h1; subst h2
           have hc := head_canonical (major := 0) hinfo hr
           rw [hb0 0 hm0] at hc
-          exact ⟨head 0 n, enc_int_nat n, hc⟩
+          exact ⟨head 0 n, enc_int_nat dp n, hc⟩
       rw [if_neg hm0] at h
       by_cases hm1 : b0.toNat / 32 = 1
       · rw [if_pos hm1] at h
@@ -230,7 +230,7 @@ theorem dec_canon : ∀ fuel, Canon (dec fuel) := by
             subst h1; subst h2
             have hc := head_canonical (major := 1) hinfo hr
             rw [hb0 1 hm1] at hc
-            exact ⟨head 1 n, enc_int_neg n (by omega), hc⟩
+            exact ⟨head 1 n, enc_int_neg dp n (by omega), hc⟩
       rw [if_neg hm1] at h
       by_cases hm2 : b0.toNat / 32 = 2
       · rw [if_pos hm2] at h
@@ -273,14 +273,17 @@ theorem dec_canon : ∀ fuel, Canon (dec fuel) := by
         · rename_i n r hr
           split at h
           · cases h
-          · rename_i xs r' hxs
-            injection h with h; injection h with h1 h2
-            subst h1; subst h2
-            have hc := head_canonical (major := 4) hinfo hr
-            rw [hb0 4 hm4] at hc
-            obtain ⟨e, he, hb, hl⟩ := itemsWith_canon ih _ _ _ _ hxs
-            refine ⟨head 4 xs.length ++ e, by simp [enc, he], ?_⟩
-            rw [hc, hb, hl]; simp
+          · rename_i hdp
+            split at h
+            · cases h
+            · rename_i xs r' hxs
+              injection h with h; injection h with h1 h2
+              subst h1; subst h2
+              have hc := head_canonical (major := 4) hinfo hr
+              rw [hb0 4 hm4] at hc
+              obtain ⟨e, he, hb, hl⟩ := itemsWith_canon (ih (dp + 1)) _ _ _ _ hxs
+              refine ⟨head 4 xs.length ++ e, by simp [enc, he, hdp], ?_⟩
+              rw [hc, hb, hl]; simp
       rw [if_neg hm4] at h
       by_cases hm5 : b0.toNat / 32 = 5
       · rw [if_pos hm5] at h
@@ -289,15 +292,19 @@ theorem dec_canon : ∀ fuel, Canon (dec fuel) := by
         · rename_i n r hr
           split at h
           · cases h
-          · rename_i es r' hes
-            injection h with h; injection h with h1 h2
-            subst h1; subst h2
-            have hc := head_canonical (major := 5) hinfo hr
-            rw [hb0 5 hm5] at hc
-            obtain ⟨ents, body, hents, hasc, hbody, hb, hl⟩ := entriesWith_canon ih _ _ _ _ _ hes
-            refine ⟨head 5 ents.length ++ body, ?_, ?_⟩
-            · simp [enc, hents, sortEntries_of_asc _ _ hasc, hasAdjDup_of_asc _ _ hasc, hbody]
-            · rw [hc, hb, hl]; simp
+          · rename_i hdp
+            split at h
+            · cases h
+            · rename_i es r' hes
+              injection h with h; injection h with h1 h2
+              subst h1; subst h2
+              have hc := head_canonical (major := 5) hinfo hr
+              rw [hb0 5 hm5] at hc
+              obtain ⟨ents, body, hents, hasc, hbody, hb, hl⟩ :=
+                entriesWith_canon (ih (dp + 1)) _ _ _ _ _ hes
+              refine ⟨head 5 ents.length ++ body, ?_, ?_⟩
+              · simp [enc, hents, sortEntries_of_asc _ _ hasc, hasAdjDup_of_asc _ _ hasc, hbody, hdp]
+              · rw [hc, hb, hl]; simp
       rw [if_neg hm5] at h
       by_cases hm6 : b0.toNat / 32 = decTagMajor
       · rw [if_pos hm6] at h; cases h
@@ -328,7 +335,7 @@ theorem dec_canon : ∀ fuel, Canon (dec fuel) := by
             exact ⟨[UInt8.ofNat encNull], by simp [enc], by rw [hb7 _ hi]; rfl⟩
           · split at h
             · rename_i hi
-              obtain ⟨e, he, hb⟩ := decFloat_canon hi h
+              obtain ⟨e, he, hb⟩ := decFloat_canon dp hi h
               refine ⟨e, he, ?_⟩
               rw [← hb]; rw [← hb7 _ rfl]
             · split at h <;> cases h
